@@ -149,6 +149,153 @@ def overlapping_variant(rng, c):
     return c
 
 
+# ------------------------------------------------------------------ layer level: DiagService.encode_request / DiagLayer.decode
+def _guard(f, timeout=5):
+    """(status, result | message): every call into odxtools is wrapped (exceptions and hangs become data)"""
+    import signal
+    import warnings
+    old = signal.signal(signal.SIGALRM, O._alarm)
+    signal.alarm(timeout)
+    try:
+        with warnings.catch_warnings():
+            warnings.simplefilter("ignore")
+            return "ok", f()
+    except O.Hang:
+        return "hang", "no result within %d s" % timeout
+    except Exception as e:  # noqa
+        return O.err_class(e), str(e)[:200]
+    finally:
+        signal.alarm(0)
+        signal.signal(signal.SIGALRM, old)
+
+
+def _attributed(msgs, svc_obj, cod_obj, exp):
+    """is there a message attributed to (service, coding object) that carries exactly the expected values?"""
+    seen = []
+    for m in msgs:
+        same = m.service is svc_obj and m.coding_object is cod_obj
+        seen.append([getattr(m.service, "short_name", "?"), getattr(m.coding_object, "short_name", "?")])
+        if same and V.norm(m.param_dict) == V.norm(exp):
+            return True, seen
+    return False, seen
+
+
+def layer_eval(layer, L, svc, rq_value, resp_name=None, resp_value=None):
+    """the round-trip statement at the observation points DiagService.encode_request / DiagService.decode_message /
+    DiagLayer.decode / DiagLayer.decode_response for one service (and one of its responses).
+    Returns (list of failures (clause, observed, entry, composite name, detail), request pdu | None, response pdu | None)"""
+    fails = []
+    s = L.services[svc.name]
+    rq = layer.comp(svc.request)
+    st, req = _guard(lambda: bytes(s.encode_request(**V.to_impl(rq_value))))
+    if st != "ok":
+        return fails, None, None
+    try:
+        exp = V.complete(rq, rq_value, None)
+    except V.Unsupported:
+        exp = None
+
+    def check(entry, comp, cod_obj, pdu, exp, call, single=False):
+        st, r = _guard(call)
+        if st != "ok":
+            fails.append(("decodes-back", st, entry, comp.name, {"pdu": pdu.hex(), "error": r}))
+            return
+        ok, seen = _attributed([r] if single else list(r), s, cod_obj, exp)
+        if not ok:
+            got = [V.jsonable(m.param_dict) for m in ([r] if single else list(r)) if m.service is s and m.coding_object is cod_obj]
+            fails.append(("returns-encoded-values", "not-attributed" if not got else "mismatch", entry, comp.name,
+                          {"pdu": pdu.hex(), "interpretations": seen, "decoded": got[:1], "expected": V.jsonable(exp)}))
+
+    if exp is not None:
+        check("DiagService.decode_message", rq, L[rq.name], req, exp, lambda: s.decode_message(req), single=True)
+        check("DiagLayer.decode", rq, L[rq.name], req, exp, lambda: L.dl.decode(req))
+    if resp_name is None:
+        return fails, req, None
+    rc = layer.comp(resp_name)
+    robj = L[rc.name]
+    st, pdu = _guard(lambda: bytes(robj.encode(coded_request=req, **V.to_impl(resp_value))))
+    if st != "ok":
+        return fails, req, None
+    try:
+        rexp = V.complete(rc, resp_value, req)
+    except V.Unsupported:
+        return fails, req, pdu
+    if rc.kind != "global-neg-response":
+        check("DiagService.decode_message", rc, robj, pdu, rexp, lambda: s.decode_message(pdu), single=True)
+    check("DiagLayer.decode_response", rc, robj, pdu, rexp, lambda: L.dl.decode_response(pdu, req))
+    check("DiagLayer.decode", rc, robj, pdu, rexp, lambda: L.dl.decode(pdu))
+    return fails, req, pdu
+
+
+def layer_witness(layer, svc, rq_value, resp_name, resp_value, detail):
+    w = {"layer": D.to_json(layer), "service": svc.name, "request_value": V.jsonable(rq_value)}
+    if resp_name is not None:
+        w["response"] = resp_name
+        w["response_value"] = V.jsonable(resp_value)
+    w.update(detail)
+    return w
+
+
+def layer_family(ctx, rep, corr, rng, n_layers, n_values):
+    seen = set()
+    for i in range(n_layers):
+        try:
+            layer = G.gen_layer(rng, G.QUICK if i % 3 else G.SIMPLE)
+        except Exception as e:  # noqa
+            ctx.count("generator_error:" + type(e).__name__)
+            continue
+        st, L = _guard(lambda: __import__("odxgen.xmlgen", fromlist=["load_layer"]).load_layer(layer), timeout=20)
+        if st != "ok":
+            ctx.count("layers_rejected_by_loader")
+            ctx.count("loader:" + st)
+            ctx.sample({"rejected-layer": L}, limit=6)
+            continue
+        ctx.count("layers_loaded")
+        ctx.histo("layer_services", len(layer.services))
+        for c in layer.composites:
+            O.record_features(ctx, c)
+            ctx.histo("family", "layer-roundtrip")
+            ctx.histo("layer_sharing", f"{c.kind}:{min(len(layer.users(c.name)), 3)}" if c.kind != "global-neg-response" else "global")
+        for svc in layer.services:
+            rq = layer.comp(svc.request)
+            # a global negative response is attributed unambiguously only where no NEG-RESPONSE of the service has the same shape
+            resp_names = svc.pos + svc.neg + (layer.gneg if not svc.neg else [])
+            for k in range(n_values):
+                try:
+                    rq_value = V.gen_value(rng, rq)
+                except Exception:  # noqa
+                    ctx.count("value_generation_unsupported")
+                    continue
+                plan = [(None, None)] if not resp_names else []
+                for rn in resp_names:
+                    try:
+                        plan.append((rn, V.gen_value(rng, layer.comp(rn))))
+                    except Exception:  # noqa
+                        ctx.count("value_generation_unsupported")
+                for rn, rv in plan:
+                    fails, req, pdu = layer_eval(layer, L, svc, rq_value, rn, rv)
+                    ctx.case(("layer", O.sexp.composite(rq), O.sexp.pval(rq_value), rn and O.sexp.composite(layer.comp(rn)), rn and O.sexp.pval(rv)),
+                             nontrivial=req is not None and (rn is None or pdu is not None))
+                    ctx.count("c01_layer_" + ("encoder-rejected" if req is None or (rn is not None and pdu is None) else "fails" if fails else "roundtrips"))
+                    if corr is not None and req is not None:
+                        # the same encodings at object level: correspondence with the model (request, then response with the request as trigger)
+                        if rn is None or k == 0:
+                            O.c01_check(ctx, rep, corr, rq, L[rq.name], rq_value, None, "layer-roundtrip")
+                        if rn is not None:
+                            O.c01_check(ctx, rep, corr, layer.comp(rn), L[rn], rv, req, "layer-roundtrip")
+                    for clause, observed, entry, cname, detail in fails:
+                        c = layer.comp(cname)
+                        feats = ["layer", entry, c.kind] + (["shared-by-services"] if len(layer.users(cname)) > 1 else [])
+                        key = (clause, observed, tuple(feats))
+                        if key in seen:
+                            ctx.count(f"violations_duplicate[{clause}/{observed}]")
+                            continue
+                        seen.add(key)
+                        ctx.violate(clause, feats, observed, layer_witness(layer, svc, rq_value, rn, rv, {**detail, "entry": entry, "object": cname}),
+                                    f"{clause}: {observed} at {entry} for {c.kind} {cname} of service {svc.name} "
+                                    f"(used by {len(layer.users(cname))} service(s)) on its own encoding {detail.get('pdu')}")
+
+
 def run(ctx):
     big = ctx.tier == "thorough"
     rng = ctx.rng
@@ -201,10 +348,32 @@ def run(ctx):
         if c is not None:
             run_doc(ctx, rep, None, [c], "overlap", rng, 2, wf=False)
     corr.flush()
+    # (f) layer level: services sharing responses, every own encoding decoded by its service and by the layer
+    layer_family(ctx, rep, corr, ctx.sub_rng("layers"), 1500 if big else 160, 3 if big else 2)
+    corr.flush()
 
 
 def replay(ctx, data):
     w = data["witness"]
+    if "layer" in w:
+        from odxgen.xmlgen import load_layer
+        layer = D.from_json(w["layer"])
+        st, L = _guard(lambda: load_layer(layer), timeout=20)
+        if st != "ok":
+            return False
+        # the services are walked in declaration order, as in the run (state kept by the coding objects matters)
+        for svc in layer.services:
+            if svc.name == w["service"]:
+                fails, _, _ = layer_eval(layer, L, svc, V.from_jsonable(w["request_value"]), w.get("response"), V.from_jsonable(w.get("response_value")))
+                return not fails
+            rq = layer.comp(svc.request)
+            for rn in [None] + svc.pos + svc.neg:
+                try:
+                    r = random.Random(0)
+                    layer_eval(layer, L, svc, V.gen_value(r, rq), rn, V.gen_value(r, layer.comp(rn)) if rn else None)
+                except Exception:  # noqa
+                    pass
+        return False
     c = D.from_json(w["desc"])
     L, err = O.safe_load(c)
     if L is None:
